@@ -1224,7 +1224,7 @@ impl Interpreter {
     /// Call `prepare()` to set up execution before using `step()`.
     #[inline]
     pub fn step(&mut self) -> Result<StepResult, JsError> {
-        use bytecode_vm::{BytecodeVM, VmStepResult};
+        use bytecode_vm::VmStepResult;
 
         // If there's no active VM, try to set one up from various sources
         if self.active_vm.is_none() {
@@ -1239,12 +1239,7 @@ impl Interpreter {
                                 vm_guard.guard(obj.cheap_clone());
                             }
 
-                            let mut vm = BytecodeVM::from_saved_state(
-                                order_suspension.state,
-                                JsValue::Object(self.global.clone()),
-                                vm_guard,
-                                &self.heap,
-                            );
+                            let mut vm = self.restore_suspended_vm(order_suspension.state, vm_guard);
 
                             // Set response value directly in resume register
                             vm.set_resume_value(order_suspension.resume_register, value);
@@ -1253,12 +1248,7 @@ impl Interpreter {
                         Err(error) => {
                             // Inject error as exception
                             let vm_guard = self.heap.create_guard();
-                            let mut vm = BytecodeVM::from_saved_state(
-                                order_suspension.state,
-                                JsValue::Object(self.global.clone()),
-                                vm_guard,
-                                &self.heap,
-                            );
+                            let mut vm = self.restore_suspended_vm(order_suspension.state, vm_guard);
 
                             let error_msg = JsValue::String(JsString::from(error.to_string()));
                             if vm.inject_exception(self, error_msg.clone()) {
@@ -1300,23 +1290,13 @@ impl Interpreter {
                         match status {
                             PromiseStatus::Fulfilled => {
                                 let vm_guard = self.heap.create_guard();
-                                let mut vm = BytecodeVM::from_saved_state(
-                                    ctx.state,
-                                    JsValue::Object(self.global.clone()),
-                                    vm_guard,
-                                    &self.heap,
-                                );
+                                let mut vm = self.restore_suspended_vm(ctx.state, vm_guard);
                                 vm.set_resume_value(ctx.resume_register, result_value);
                                 self.active_vm = Some(Box::new(vm));
                             }
                             PromiseStatus::Rejected => {
                                 let vm_guard = self.heap.create_guard();
-                                let mut vm = BytecodeVM::from_saved_state(
-                                    ctx.state,
-                                    JsValue::Object(self.global.clone()),
-                                    vm_guard,
-                                    &self.heap,
-                                );
+                                let mut vm = self.restore_suspended_vm(ctx.state, vm_guard);
                                 if vm.inject_exception(self, result_value.clone()) {
                                     self.active_vm = Some(Box::new(vm));
                                 } else {
@@ -2375,6 +2355,23 @@ impl Interpreter {
         Err(JsError::reference_error(name.to_string()))
     }
 
+    /// Rebuild the VM of a suspended context and make its environment current again
+    fn restore_suspended_vm(
+        &mut self,
+        state: bytecode_vm::SavedVmState,
+        vm_guard: Guard<JsObject>,
+    ) -> bytecode_vm::BytecodeVM {
+        if let Some(env) = state.interp_env.clone() {
+            self.env = env;
+        }
+        bytecode_vm::BytecodeVM::from_saved_state(
+            state,
+            JsValue::Object(self.global.clone()),
+            vm_guard,
+            &self.heap,
+        )
+    }
+
     /// Push a new scope and return the saved environment
     pub fn push_scope(&mut self) -> EnvRef {
         let (new_env, new_guard) =
@@ -3212,6 +3209,12 @@ impl Interpreter {
                 arguments: args.clone(),
                 new_target: JsValue::Undefined,
                 trampoline_stack: Vec::new(), // Generators run at top level
+                this_value: None,
+                exception_value: None,
+                saved_env_stack: Vec::new(),
+                current_constructor: None,
+                pending_completion: None,
+                interp_env: None,
             };
 
             // Create guard for the VM registers
